@@ -7,18 +7,18 @@ ENGINES = [
 ]
 _T = "explicit-state enumeration of the bounded schedule box on the real solver object (DFS, pin/check/pop) vs. Python reference model"
 CHECKS["C01"] = {"engine": "E1 schedule-space explorer", "technique": _T,
-    "text": "every point of the box start,end in [-1,H+1] x duration x scheduled flags x free horizon of ~5000 (quick) task programs is either visited or refuted by the implementation's own assertion set under a pinned prefix; every admitted leaf must satisfy the task-timing clauses; 4 solver paths",
+    "text": "every point of the box start,end in [-1,H+1] x duration x scheduled flags x free horizon of ~5000 (quick) task programs is either visited or refuted by the implementation's own assertion set under a pinned prefix; every admitted leaf must satisfy the task-timing clauses; 4 solver paths; plus the same programs built in two stages with a throw-away solve in between",
     "note": "trusts z3 on ground pinned queries, the task-timing reference clauses and the adapter (documented task unknowns); bounds: <=3 tasks, H<=6"}
 
 _N = "trusts z3 on ground pinned queries, the reference clauses of psmc/ref.py (UNSPEC corners of DESIGN.md section 4 are not demanded) and the adapter (documented task unknowns plus the internal handles listed in psmc/explore.py); bounds: <=3 tasks (4 on cumulative workers), horizon <=8"
 CHECKS["C02"] = {"engine": "E1 schedule-space explorer", "technique": _T,
-    "text": "whole box of task times, durations, scheduled/selection flags AND the busy bounds of every assignment explored on ~950 (quick) resource programs (one/two workers, delays, dynamic, selections with every count/kind, cumulative sizes, productivity x work amount grids); every admitted leaf judged by no-overlap, declared span, count, capacity and work-amount clauses",
+    "text": "whole box of task times, durations, scheduled/selection flags AND the busy bounds of every assignment explored on ~950 (quick) resource programs (one/two workers, delays, dynamic, selections with every count/kind, cumulative sizes, productivity x work amount grids); every admitted leaf judged by no-overlap, declared span, count, capacity and work-amount clauses; plus two-stage builds (throw-away solver between two halves of the declarations)",
     "note": _N}
 CHECKS["C03"] = {"engine": "E1 schedule-space explorer", "technique": _T,
-    "text": "every task-constraint class x boundary parameter grid x optional subsets on 2-3 task scenes plus the interaction alphabet (task attributes x resource set-ups x one further element): every admitted leaf must satisfy the class clause (S) and every leaf the reference calls valid must be admitted (K: constraints naming an unscheduled optional task must not bind)",
+    "text": "every task-constraint class x boundary parameter grid x optional subsets on 2-3 task scenes plus the interaction alphabet (task attributes x resource set-ups x one further element): every admitted leaf must satisfy the class clause (S) and every leaf the reference calls valid must be admitted (K: constraints naming an unscheduled optional task must not bind); plus two-stage builds",
     "note": _N}
 CHECKS["C04"] = {"engine": "E1 schedule-space explorer", "technique": _T,
-    "text": "every resource-constraint class x parameter grid (interval lists, bounds x kinds, distances x modes, periods x offsets x masks, Same/Distinct lists) on plain workers, selections and cumulative workers; every admitted leaf judged by the class clause",
+    "text": "every resource-constraint class x parameter grid (interval lists, bounds x kinds, distances x modes, periods x offsets x masks, Same/Distinct lists) on plain workers, selections and cumulative workers; every admitted leaf judged by the class clause; plus two-stage builds",
     "note": _N}
 CHECKS["C05"] = {"engine": "E1 schedule-space explorer", "technique": "explicit enumeration of the bounded box by the Python reference; every VALID point looked up in the exhaustively explored admitted set of the real solver object",
     "text": "direction K over the union of the alphabets: every box point the reference calls VALID is admitted by the implementation (re-checked as a fully pinned leaf), the verdict of the real solve() agrees with the explored set, lost schedules are attributed to a 1-minimal culprit and confirmed through the public API in a fresh process",
@@ -70,8 +70,8 @@ CHECKS["C17"] = {"engine": "E4/E5 artefact and constructor grids", "technique": 
     "text": "bars (PolyCollection paths), labels (Text), tick labels and buffer lines (Line2D) of ~1700 (quick) solutions x 2 modes compared with the reported assignments, scheduled tasks, zero-length markers and buffer step functions",
     "note": "matplotlib artist geometry is taken as what is drawn; the solution object is the reference"}
 CHECKS["C18"] = {"engine": "E4/E5 artefact and constructor grids", "technique": "full boundary-value product per constructor, each tuple built through the public API in a fresh problem",
-    "text": "~310 tuples: every listed ill-formed case must raise at creation, every documented legal value (incl. boundaries) must be accepted and the problem must still initialise",
+    "text": "~800 tuples: every listed ill-formed case must raise at creation, every documented legal value (incl. boundaries) must be accepted and the problem must still initialise; every rejected single-element case is followed in the same problem by its well-formed variant under the same name (a rejected attempt leaves nothing behind); every program of the other checks' alphabets (~7000 in the quick tier) must build and initialise",
     "note": "the accept/reject predicate is transcribed from the property statement; unlisted corners are UNSPEC and only counted"}
 CHECKS["C19"] = {"engine": "E1 schedule-space explorer", "technique": "E1 decides emptiness of the box; debug runs parsed; the named subset re-explored by E1",
-    "text": "~950 (quick) programs, two thirds infeasible: every constraint named by the debug diagnosis is a constraint of the problem and the problem with ONLY the named constraints has an empty box (explored exhaustively); debug and plain verdicts agree; debug runs of feasible programs return members of A(P)",
+    "text": "~950 (quick) programs, two thirds infeasible: every constraint named by the debug diagnosis is a constraint of the problem and the problem with ONLY the named constraints has an empty box (explored exhaustively); debug and plain verdicts agree; debug runs of feasible programs return members of A(P); the diagnosis of a second solve() on the same solver object is judged by the same rule",
     "note": _N}
